@@ -305,3 +305,46 @@ func ZZ_C22_perblock() {
 	zzAssertSameState(&c.state.StateKeyFrame, st)
 	zzAssertSameCommittee(&c.KeyFrame, kf)
 }
+
+// ZZ_C22_inactive: the per-block inactivity steps logged in the committee's
+// inactivity history (updateInactiveCountPenalty, updateCRInactiveStatus) on a
+// committee with one member that is elected with or without a claimed DPoS
+// node, inactive or illegal, inside or after the claim period, before or after
+// the height from which inactivity costs a penalty.
+func ZZ_C22_inactive() {
+	cfg := zzCRConfig()
+	cfg.DPoSConfiguration.InactivePenalty = 50000000000
+	cfg.CRConfiguration.VotingPeriod = 20
+	cfg.CRConfiguration.CRClaimPeriod = 5
+	if nd.Bool("beforePenaltyHeight") {
+		cfg.CRConfiguration.ChangeCommitteeNewCRHeight = zzH + 1
+	}
+	c := zzCommittee(cfg)
+	c.InElectionPeriod = true
+	c.LastVotingStartHeight = zzH - 25 - uint32(nd.Choose("claimPeriodOver", 2))*5 + 3
+	m := &CRMember{Info: payload.CRInfo{CID: common.Uint168{0x67, 5}, DID: common.Uint168{0x67, 6}}, MemberState: MemberState(nd.Choose("memberState", 6)),
+		PenaltyBlockCount: nd.U32("penaltyBlockCount")}
+	nd.Assume(m.PenaltyBlockCount < 0xffffff00)
+	if nd.Bool("hasNode") {
+		m.DPOSPublicKey = zzCRKey(5)
+	}
+	c.Members[m.Info.DID] = m
+	c.state.DepositInfo[m.Info.CID] = &DepositInfo{DepositAmount: zzCRAmount("depositAmount"), Penalty: zzCRAmount("penalty"), TotalAmount: zzCRAmount("totalAmount")}
+	st := c.state.StateKeyFrame.Snapshot()
+	kf := c.KeyFrame.Snapshot()
+	kf.NextMembers = copyMembersMap(c.NextMembers)
+	kf.ClaimedDPoSKeys = copyClaimedDPoSKeysMap(c.ClaimedDPoSKeys)
+	kf.NextClaimedDPoSKeys = copyClaimedDPoSKeysMap(c.NextClaimedDPoSKeys)
+	c.inactiveCRHistory.Commit(zzH - 1)
+	nd.NoPanic("process", func() {
+		c.updateInactiveCountPenalty(c.inactiveCRHistory, zzH)
+		c.updateCRInactiveStatus(c.inactiveCRHistory, zzH)
+		c.inactiveCRHistory.Commit(zzH)
+	})
+	nd.Reach("processed")
+	nd.NoPanic("rollback", func() {
+		nd.Assert(c.inactiveCRHistory.RollbackTo(zzH-1) == nil, "rollback_of_one_block_succeeds")
+	})
+	zzAssertSameState(&c.state.StateKeyFrame, st)
+	zzAssertSameCommittee(&c.KeyFrame, kf)
+}
